@@ -313,3 +313,41 @@ from contracts import c08_lm as _c08
 for _nm, _fn in (('Constant', _c08.s_const), ('Adaptive', _c08.s_adapt), ('TrustRegion', _c08.s_tr)):
     obligation(f'C07.callee.strategy.{_nm}', functions=[f'{OPT}:LevenbergMarquardt.__init__', f'pypose.optim.strategy:{_nm}.__init__', f'pypose.optim.strategy:{_nm}.update'],
                max_paths=128, note='callee contract assumed by C07.LM.step.trials (same contract function as C08.strategy.*)')(_fn)
+
+
+for _cls in ('GaussNewton', 'LevenbergMarquardt'):
+    def mk(cls_name=_cls):
+        @obligation(f'C07.{cls_name}.weight_is_per_call', functions=[f'{OPT}:{cls_name}.step', f'{OPT}:{cls_name}.__init__'], max_paths=32)
+        def per_call(env):
+            """a weight passed to step() applies to that call only: the next call without one uses the constructor weight (or none)"""
+            T = env.T
+            for ctor in (True, False):
+                S_ = Setup(env, [(1, 2)], [('p', 'euclid')])
+                tag = 'constructor weight W0' if ctor else 'no constructor weight'
+                kw = dict(solver=S_.solver)
+                if cls_name == 'LevenbergMarquardt':
+                    # keep the diagonal clamp of J^T W J inactive without forking: J = I, diagonal weights in (1, max)
+                    S_.J = [(T.eye(2).reshape(1, 2, 2) if env.sym else T.eye(2, dtype=S_.R[0].dtype).reshape(1, 2, 2),)]
+                    d = [1 + env.scalar(f'd{int(ctor)}{i}', positive=True, regimes=('generic',))[0] for i in range(4)]
+                    z = d[0] * 0
+                    W0 = T.stack([T.stack([d[0], z]), T.stack([z, d[1]])]); W1 = T.stack([T.stack([d[2], z]), T.stack([z, d[3]])])
+                    class Strategy:
+                        defaults = {'damping': Q(1, 100) if env.sym else 0.01}
+                        def update(self, pg, *a, **k): pass
+                    kw.update(strategy=Strategy(), reject=0, min=Q(1, 2) if env.sym else 0.5, max=d[0] + d[1] + d[2] + d[3] + 1)
+                else:
+                    W0 = sym_tensor(env, f'W0{int(ctor)}', (2, 2)); W1 = sym_tensor(env, f'W1{int(ctor)}', (2, 2))
+                if ctor: kw['weight'] = W0
+                opt = getattr(S_.optm, cls_name)(S_.model, **kw)
+                S_.install(opt)
+                seq = iter([5, 4, 3, 2, 1, 0, 0, 0])
+                object.__setattr__(opt.model, 'loss', lambda *a, **k: (T.tensor(next(seq)) if env.sym else T.tensor(float(next(seq)))))
+                r, J = S_.stacked()
+                opt.step(None, weight=W1)
+                opt.step(None)
+                env.holds(f'{tag}: one solve per call', len(S_.calls) == 2)
+                def rhs(W): return -(J.transpose(-1, -2) @ W @ r) if cls_name == 'LevenbergMarquardt' else -(W @ r)
+                I2 = T.eye(2) if env.sym else T.eye(2, dtype=r.dtype)
+                env.eq(f'{tag}: the call given W1 uses W1', S_.calls[0][1].reshape(-1), rhs(W1))
+                env.eq(f'{tag}: the next call without a weight uses ' + ('W0' if ctor else 'no weight'), S_.calls[1][1].reshape(-1), rhs(W0 if ctor else I2))
+    mk()
